@@ -323,7 +323,7 @@ func (v *FV) frameCheck(fr *Frame, st *State, con *Contract, vars map[string]TV,
 	sort.Strings(names)
 	k := v.declare("frame_k", "Int")
 	for _, a := range names {
-		if strings.HasPrefix(a, "RV_") || strings.HasSuffix(a, "$n") || a == "TOP" || a == "CALLS" || a == "ARGNN" {
+		if strings.HasPrefix(a, "RV_") || strings.HasSuffix(a, "$n") || a == "TOP" || a == "CALLS" || a == "ARGNN" || a == "ARGV" {
 			continue // ghost iteration state of range loops; arrays of objects allocated here
 		}
 		// locals allocated by the function itself are > N0 and invisible to the caller
